@@ -37,6 +37,7 @@ XName == <<"x1", "x2", "x3">>     \* loop variables
 KName == <<"k1", "k2", "k3">>     \* loop index / key variables
 AName == <<"a1", "a2", "a3">>     \* array variables
 WName == <<"w1", "w2", "w3">>
+FName == <<"f1", "f2", "f3">>     \* user-defined functions
 
 ArrLit(ns) == <<"arr", [i \in 1..Len(ns) |-> LitI(ns[i])]>>
 \* "héy" = 104 233 121
@@ -45,12 +46,12 @@ StrHey == LitS(<<104, 233, 121>>)
 HashBA == <<"hash", <<<<LitS(<<98>>), LitI(2)>>, <<LitS(<<97>>), LitI(1)>>>>>>
 ReA    == <<"lit", R(<<94, 97>>, "")>>        \* /^a/
 
-NKinds == 37
+NKinds == 41
 
 \* The construct of kind k in slot j (base call number n = 100 * j) around body block B.
 MkC(k, j, BODY, c, d) ==
   LET n == 100 * j  i == IName[j]  x == XName[j]
-      kk == KName[j]  a == AName[j]  w == WName[j] IN
+      kk == KName[j]  a == AName[j]  w == WName[j]  f == FName[j] IN
   CASE k = 1  -> <<T(n), If(c, <<T(n + 1)>> \o BODY \o <<T(n + 2)>>), T(n + 3)>>
     [] k = 2  -> <<T(n), IfElse(c, <<T(n + 1)>> \o BODY, <<T(n + 2)>>), T(n + 3)>>
     [] k = 3  -> <<T(n), IfElse(c, <<T(n + 1)>>, <<IfElse(d, <<T(n + 2)>> \o BODY, <<T(n + 4)>>)>>), T(n + 3)>>
@@ -92,6 +93,15 @@ MkC(k, j, BODY, c, d) ==
     [] k = 35 -> <<Asg(x, BinE("+", LitI(65534), LitI(1))), TE(BinE("-", LitI(3), LitI(5)))>> \o BODY \o <<TE(BinE("+", Ref(x), BinE("*", LitI(2), LitI(2))))>>
     [] k = 36 -> <<TE(<<"tern", c, BinE("+", LitI(1), LitI(2)), BinE("*", LitI(2), LitI(2))>>)>> \o BODY \o <<TE(BinE("+", <<"tern", c, LitI(1), LitI(3)>>, LitI(4)))>>
     [] k = 37 -> <<If(<<"tern", c, LitB(TRUE), LitB(FALSE)>>, <<T(n + 1)>> \o BODY), While(<<"tern", c, LitB(FALSE), LitB(FALSE)>>, <<T(n + 2)>>), T(n + 3)>>
+    \* the arm written last is taken while `default` is written in the middle / first
+    [] k = 38 -> <<Switch(LitI(2), <<Case(<<LitI(1)>>, <<T(n + 1)>>), Default(<<T(n + 4)>>), Case(<<LitI(2)>>, <<T(n + 2)>> \o BODY)>>), T(n + 3)>>
+    [] k = 39 -> <<Switch(LitI(3), <<Default(<<T(n + 4)>>), Case(<<LitI(1)>>, <<T(n + 1)>>), Case(<<LitI(2), LitI(3)>>, <<T(n + 2)>> \o BODY)>>), T(n + 3)>>
+    \* a user-defined function called from inside a loop, its result discarded / used
+    [] k = 40 -> <<<<"func", f, <<"p">>, <<Ret(BinE("*", Ref("p"), LitI(2)))>>>>,
+                   ForEach("", x, ArrLit(<<1, 2, 3>>), <<<<"expr", CallE(f, <<Ref(x)>>)>>, TE(Ref(x))>> \o BODY), T(n + 3)>>
+    \* ... which itself returns from inside a loop of its own
+    [] k = 41 -> <<<<"func", f, <<"p">>, <<ForEach("", "q", ArrLit(<<5, 6>>), <<If(BinE("==", Ref("q"), LitI(6)), <<Ret(BinE("+", Ref("q"), Ref("p")))>>)>>), Ret(LitI(0))>>>>,
+                   ForEach("", x, ArrLit(<<1, 2>>), <<TE(CallE(f, <<Ref(x)>>))>> \o BODY \o <<T(n + 2)>>), T(n + 3)>>
 
 Mk(k, j, BODY) == MkC(k, j, BODY, Ref(CName[j]), Ref(DName[j]))
 
